@@ -285,6 +285,12 @@ func (e *emitter) Header(
 }
 
 func (e *emitter) Message(data []byte, streamEnded bool) error {
+	if data == nil && streamEnded {
+		// A bare end-of-stream (the adapter reports an empty DATA frame carrying END_STREAM this
+		// way) is not a message: it is forwarded as an empty DATA frame, not as a zero-length
+		// message.
+		return e.sink.Data(nil, true)
+	}
 	// Applies compression to `data` depending on `adapter`'s state.
 	if e.adapter.compressed {
 		switch e.adapter.encoding {
